@@ -21,10 +21,9 @@ from qiskit import QuantumCircuit, QuantumRegister
 from qiskit.circuit import Qubit
 from qiskit.circuit import Gate
 from numpy import sqrt, outer
-from numpy.linalg import eig
 
 from .mcx import LinearMcx
-from .util import check_u2
+from .util import check_u2, orthonormal_eig
 
 
 # pylint: disable=protected-access
@@ -123,7 +122,7 @@ class Qdmcu(Gate):
 
     @staticmethod
     def custom_sqrtm(unitary):
-        eig_vals, eig_vecs = eig(unitary)
+        eig_vals, eig_vecs = orthonormal_eig(unitary)
         first_eig = sqrt(eig_vals[0]) * outer(eig_vecs[:, 0], eig_vecs[:, 0].conj())
         second_eig = sqrt(eig_vals[1]) * outer(eig_vecs[:, 1], eig_vecs[:, 1].conj())
         return first_eig + second_eig
